@@ -982,6 +982,35 @@ Proof.
   rewrite IH by (intros; apply E; now right). reflexivity.
 Qed.
 
+Lemma res_map_length {A B} (f : A -> res B) l : forall r, res_map f l = ROk r -> length r = length l.
+Proof.
+  induction l as [|a l IH]; intros r E; cbn [res_map] in E.
+  - injection E as <-. reflexivity.
+  - destruct (f a) as [b| |]; cbn [res_bind] in E; try discriminate.
+    destruct (res_map f l) as [r'| |]; cbn [res_bind] in E; try discriminate.
+    injection E as <-. cbn. f_equal. now apply IH.
+Qed.
+
+Lemma res_map_no_panic {A B} (f : A -> res B) l :
+  (forall a, In a l -> f a <> RPanic) -> res_map f l <> RPanic.
+Proof.
+  induction l as [|a l IH]; intro NP; cbn [res_map]; [discriminate|].
+  specialize (NP a (or_introl eq_refl)) as Na.
+  destruct (f a) as [b| |]; cbn [res_bind]; try discriminate; [|congruence].
+  assert (N' : res_map f l <> RPanic) by (apply IH; intros; apply NP; now right).
+  destruct (res_map f l); cbn [res_bind]; congruence.
+Qed.
+
+Lemma res_map_err {A B} (f : A -> res B) l :
+  (forall a, In a l -> f a <> RPanic) -> (exists a, In a l /\ f a = RErr) -> res_map f l = RErr.
+Proof.
+  induction l as [|a l IH]; intros NP (x & Hx & Ex); [inversion Hx|].
+  cbn [res_map]. specialize (NP a (or_introl eq_refl)) as Na.
+  destruct (f a) as [b| |] eqn:Ea; cbn [res_bind]; [|reflexivity|congruence].
+  rewrite IH; [reflexivity | intros; apply NP; now right |].
+  destruct Hx as [<-|Hx]; [congruence|]. now exists x.
+Qed.
+
 Lemma le_val_all0 l : (forall x, In x l -> x = 0%N) -> le_val l = 0%N.
 Proof.
   induction l as [|b l IH]; intro E; [reflexivity|].
@@ -1919,22 +1948,17 @@ Section AdditiveAltered.
 
   (* the receiver on any message whose pads are all well-formed: no error, no panic *)
   Lemma additive_recv_wellformed choices VC CP :
-    length CP = (8 * length choices)%nat -> (nb < length CP)%nat ->
+    length CP = (8 * length choices)%nat ->
     (forall p, In p CP -> pad_ok p) ->
     additive_recv q nb sc2 choices VC CP = ROk (map (recv_fun choices VC CP) (seq 0 (8 * length choices))).
   Proof.
-    intros LCP Lnb OK.
-    assert (Lens0 : map (fun p : bytes * bytes => length (fst p)) CP = repeat nb (length CP)).
-    { apply map_const_repeat. intros p Hp. apply (OK p Hp). }
-    assert (Lens1 : map (fun p : bytes * bytes => length (snd p)) CP = repeat nb (length CP)).
-    { apply map_const_repeat. intros p Hp. apply (OK p Hp). }
-    unfold additive_recv. apply res_map_ok. intros j Hj. apply in_seq in Hj.
+    intros LCP OK.
+    unfold additive_recv. rewrite LCP, Nat.eqb_refl. cbn [negb].
+    apply res_map_ok. intros j Hj. apply in_seq in Hj.
     assert (Lj : (j < length CP)%nat) by llia.
     destruct (OK (nth j CP ([], [])) (nth_In _ _ Lj)) as (O0 & O1 & V0 & V1).
-    unfold additive_recv_one, recv_fun. unfold bytes, byte in *. rewrite Lens0, Lens1.
-    destruct (sc2 (nth j VC [])) as [v0 v1].
-    destruct (Nat.leb_spec (length CP) j) as [L|_]; [lia|].
-    rewrite !(masked_pad_honest nb) by assumption. cbn [res_bind fst snd].
+    unfold additive_recv_one, recv_fun, masked_pad. unfold bytes, byte in *.
+    destruct (sc2 (nth j VC [])) as [v0 v1]. cbn [fst snd].
     destruct (bit_at j choices).
     - rewrite !mask_bytes_true by (apply O0 || apply O1).
       rewrite !unmarshal_ok by assumption. reflexivity.
@@ -1977,15 +2001,15 @@ Section AdditiveAltered.
   (* altering the pads to other valid scalars moves the receiver's output by c_j * d_j:
      this is the alteration studied at the Multiply layer *)
   Theorem additive_altered_pads choices VC CP d0 d1 :
-    length CP = (8 * length choices)%nat -> (nb < length CP)%nat ->
+    length CP = (8 * length choices)%nat ->
     (forall p, In p CP -> pad_ok p) ->
     exists recv,
       additive_recv q nb sc2 choices VC CP = ROk recv /\
       additive_recv q nb sc2 choices VC (alter_pads 0 d0 d1 CP) = ROk (alter_recv q choices 0 d0 d1 recv).
   Proof.
-    intros LCP Lnb OK. eexists. split; [now apply additive_recv_wellformed|].
+    intros LCP OK. eexists. split; [now apply additive_recv_wellformed|].
     rewrite additive_recv_wellformed;
-      [| now rewrite alter_pads_length | now rewrite alter_pads_length | apply alter_pads_ok].
+      [| now rewrite alter_pads_length | apply alter_pads_ok].
     f_equal. rewrite alter_recv_map_seq. apply map_ext_in. intros j Hj. apply in_seq in Hj.
     unfold recv_fun. rewrite nth_alter_pads by llia. cbn [fst snd Nat.add].
     unfold pad_val at 1 3. rewrite !(marshal_val q nb Hqnb) by apply zadd_range, Hq.
@@ -2004,6 +2028,118 @@ Section AdditiveAltered.
     repeat split; try apply be_bytes_length; try apply be_bytes_wf; apply zadd_range, Hq.
   Qed.
 End AdditiveAltered.
+
+(* ---- arbitrary (malformed) sender messages: the repaired receiver never panics ---- *)
+Section NeverPanics.
+  Variables (q : Z) (nb : nat) (sc2 : bytes -> Z * Z).
+
+  Lemma additive_recv_one_cases choices VC CP i :
+    (pads_ok_at q nb choices CP i = true /\ exists r, additive_recv_one q nb sc2 choices VC CP i = ROk r) \/
+    (pads_ok_at q nb choices CP i = false /\ additive_recv_one q nb sc2 choices VC CP i = RErr).
+  Proof.
+    unfold additive_recv_one, pads_ok_at, pad_decodes. cbn zeta. unfold bytes, byte in *.
+    destruct (sc2 (nth i VC [])) as [v0 v1].
+    destruct (scalar_unmarshal q nb (masked_pad (bit_at i choices) (fst (nth i CP ([], []))))) as [c0|];
+      destruct (scalar_unmarshal q nb (masked_pad (bit_at i choices) (snd (nth i CP ([], []))))) as [c1|];
+      cbn [andb]; [left; split; [reflexivity | eexists; reflexivity] | right; now split ..].
+  Qed.
+
+  (* exact outcome of AdditiveOTReceiver.Round2 on ANY message: decided by [additive_msg_ok]
+     (number of pads, and every masked pad decodes), independent of the OT pads and of the hash *)
+  Theorem additive_recv_outcome choices VC CP :
+    (additive_msg_ok q nb choices CP = true ->
+       exists recv, additive_recv q nb sc2 choices VC CP = ROk recv /\ length recv = (8 * length choices)%nat) /\
+    (additive_msg_ok q nb choices CP = false -> additive_recv q nb sc2 choices VC CP = RErr).
+  Proof.
+    unfold additive_msg_ok, additive_recv.
+    destruct (Nat.eqb_spec (length CP) (8 * length choices)) as [L|L]; cbn [negb andb];
+      [|split; [discriminate|reflexivity]].
+    assert (Ll : length (seq 0 (8 * length choices)) = (8 * length choices)%nat) by apply seq_length.
+    revert Ll. generalize (seq 0 (8 * length choices)). intros l Ll.
+    assert (NP : forall a, In a l -> additive_recv_one q nb sc2 choices VC CP a <> RPanic).
+    { intros a _. destruct (additive_recv_one_cases choices VC CP a) as [[_ [r ->]]|[_ ->]]; discriminate. }
+    split; intro E.
+    - assert (X : exists r, res_map (additive_recv_one q nb sc2 choices VC CP) l = ROk r).
+      { clear NP Ll. induction l as [|a l IH]; [now exists []|].
+        cbn [forallb] in E. apply andb_true_iff in E as [Ea El]. destruct (IH El) as [r Er].
+        destruct (additive_recv_one_cases choices VC CP a) as [[_ [ra Era]]|[F _]]; [|congruence].
+        cbn [res_map]. rewrite Era, Er. cbn [res_bind]. now eexists. }
+      destruct X as [r R]. exists r. split; [exact R|].
+      apply res_map_length in R. now rewrite R.
+    - apply res_map_err; [exact NP|]. clear NP Ll.
+      induction l as [|a l IH]; [discriminate|].
+      cbn [forallb] in E. apply andb_false_iff in E as [Ea|El].
+      + exists a. split; [now left|].
+        destruct (additive_recv_one_cases choices VC CP a) as [[T _]|[_ R]]; [congruence|exact R].
+      + destruct (IH El) as (x & Hx & Ex). exists x. split; [now right|exact Ex].
+  Qed.
+
+  Theorem additive_recv_never_panics choices VC CP :
+    additive_recv q nb sc2 choices VC CP <> RPanic.
+  Proof.
+    destruct (additive_recv_outcome choices VC CP) as [A B].
+    destruct (additive_msg_ok q nb choices CP).
+    - destruct (A eq_refl) as (r & -> & _). discriminate.
+    - rewrite (B eq_refl). discriminate.
+  Qed.
+
+  (* a message with the wrong number of pads, or with a pad of the wrong length (short or long,
+     either component, whatever the choice bit): error *)
+  Theorem additive_malformed_rejected choices VC CP :
+    length CP <> (8 * length choices)%nat \/
+    (exists i, (i < 8 * length choices)%nat /\
+               (length (fst (nth i CP ([], []))) <> nb \/ length (snd (nth i CP ([], []))) <> nb)) ->
+    additive_recv q nb sc2 choices VC CP = RErr.
+  Proof.
+    intro M. apply (additive_recv_outcome choices VC CP). unfold additive_msg_ok.
+    apply andb_false_iff.
+    destruct M as [M|(i & Li & M)]; [left; apply Nat.eqb_neq; exact M|].
+    right. apply not_true_iff_false. intro F. rewrite forallb_forall in F.
+    assert (Hi : In i (seq 0 (8 * length choices))) by (apply in_seq; lia).
+    specialize (F i Hi). unfold pads_ok_at in F. cbn zeta in F.
+    apply andb_true_iff in F as [F0 F1]. unfold pad_decodes, scalar_unmarshal, masked_pad in F0, F1.
+    rewrite mask_bytes_length in F0, F1. unfold bytes, byte in *.
+    destruct M as [M|M]; apply Nat.eqb_neq in M.
+    - rewrite M in F0. discriminate.
+    - rewrite M in F1. discriminate.
+  Qed.
+
+  Variables (chi0 chi1 : Z) (choices : bytes) (VC : list bytes) (gadget : list Z).
+  Hypothesis Hgadget : length gadget = (8 * length choices)%nat.
+
+  (* MultiplyReceiver.Round2 on ANY sender message: a share or an error, never a panic *)
+  Theorem multiply_never_panics CP rcheck ucheck :
+    mult_recv_round2 q nb sc2 chi0 chi1 choices VC gadget CP rcheck ucheck <> RPanic.
+  Proof.
+    unfold mult_recv_round2.
+    destruct (additive_recv_outcome choices VC CP) as [A B].
+    destruct (additive_msg_ok q nb choices CP); [|rewrite (B eq_refl); discriminate].
+    destruct (A eq_refl) as (recv & -> & Lr). cbn [res_bind].
+    unfold mult_recv, mult_recv_check.
+    destruct (Nat.eqb_spec (length rcheck) (length recv)) as [L|L]; cbn [negb res_bind]; [|discriminate].
+    destruct (mult_recv_check_dichotomy q chi0 chi1 choices ucheck recv rcheck 0) as [[R _]|[R _]];
+      [lia | | rewrite R; discriminate].
+    rewrite R. cbn [res_bind]. unfold mult_share.
+    destruct (Nat.ltb_spec (length gadget) (length recv)); [lia|discriminate].
+  Qed.
+
+  Theorem multiply_malformed_rejected CP rcheck ucheck :
+    length CP <> (8 * length choices)%nat \/
+    (exists i, (i < 8 * length choices)%nat /\
+               (length (fst (nth i CP ([], []))) <> nb \/ length (snd (nth i CP ([], []))) <> nb)) \/
+    length rcheck <> (8 * length choices)%nat ->
+    mult_recv_round2 q nb sc2 chi0 chi1 choices VC gadget CP rcheck ucheck = RErr.
+  Proof.
+    intro M. unfold mult_recv_round2.
+    destruct M as [M|[M|M]].
+    1: { rewrite additive_malformed_rejected by (left; exact M). reflexivity. }
+    1: { rewrite additive_malformed_rejected by (right; exact M). reflexivity. }
+    destruct (additive_recv_outcome choices VC CP) as [A B].
+    destruct (additive_msg_ok q nb choices CP); [|now rewrite (B eq_refl)].
+    destruct (A eq_refl) as (recv & -> & Lr). cbn [res_bind].
+    apply mult_recv_wrong_len. rewrite Lr. exact M.
+  Qed.
+End NeverPanics.
 
 (* A malformed alteration: one pad of an otherwise honest message is cut short.  The receiver's
    masking loop indexes past the end of that pad: Go panics (confirmed on the Go code: "index out of
@@ -2025,8 +2161,16 @@ Lemma demo_honest_ok :
   exists recv, additive_recv secp256k1_q 32 demo_sc2 demo_choices demo_VC demo_CP = ROk recv.
 Proof. eexists. vm_compute. reflexivity. Qed.
 
-Theorem additive_short_pad_panics :
-  additive_recv secp256k1_q 32 demo_sc2 demo_choices demo_VC demo_CP_short = RPanic.
+(* before the repair *)
+Theorem additive_short_pad_panics_v0 :
+  additive_recv_v0 secp256k1_q 32 demo_sc2 demo_choices demo_VC demo_CP_short = RPanic.
+Proof. vm_compute. reflexivity. Qed.
+Lemma demo_honest_ok_v0 :
+  exists recv, additive_recv_v0 secp256k1_q 32 demo_sc2 demo_choices demo_VC demo_CP = ROk recv.
+Proof. eexists. vm_compute. reflexivity. Qed.
+(* after the repair: an error *)
+Theorem additive_short_pad_rejected :
+  additive_recv secp256k1_q 32 demo_sc2 demo_choices demo_VC demo_CP_short = RErr.
 Proof. vm_compute. reflexivity. Qed.
 
 (* ========================================================================================== *)
@@ -2048,34 +2192,41 @@ Qed.
 Lemma demo_sc2_range : forall x, 0 <= fst (demo_sc2 x) < secp256k1_q /\ 0 <= snd (demo_sc2 x) < secp256k1_q.
 Proof. intro x. unfold demo_sc2. cbn [fst snd]. split; apply Z.mod_pos_bound; reflexivity. Qed.
 
-(* AdditiveOT with a batch of at most 32 transfers: the honest receiver panics *)
-Theorem additive_small_batch_refuted :
+(* BEFORE the repair: AdditiveOT with a batch of at most 32 transfers, the honest receiver panics *)
+Theorem additive_small_batch_refuted_v0 :
   exists (choices : bytes) (V : list (bytes * bytes)),
     length V = (8 * length choices)%nat /\ (0 < length V)%nat /\
     forall alpha VC,
-      additive_recv secp256k1_q 32 demo_sc2 choices VC
+      additive_recv_v0 secp256k1_q 32 demo_sc2 choices VC
         (fst (additive_send secp256k1_q 32 demo_sc2 alpha V)) = RPanic.
 Proof.
   exists [165%N; 90%N; 255%N; 0%N], (firstn 32 demo_V). split; [reflexivity|]. split; [cbn; lia|].
   intros alpha VC. apply (additive_small_batch_panics secp256k1_q 32 demo_sc2); [reflexivity | cbn; lia].
 Qed.
 
-(* one altered field of the sender's message makes the honest receiver panic *)
-Theorem altered_short_pad_refuted :
+(* AFTER the repair the same honest run completes *)
+Lemma additive_small_batch_ok :
+  exists recv,
+    additive_recv secp256k1_q 32 demo_sc2 [165%N; 90%N; 255%N; 0%N] (firstn 32 demo_VC)
+      (fst (additive_send secp256k1_q 32 demo_sc2 (11, 12) (firstn 32 demo_V))) = ROk recv.
+Proof. eexists. vm_compute. reflexivity. Qed.
+
+(* BEFORE the repair: one altered field of the sender's message makes the honest receiver panic *)
+Theorem altered_short_pad_refuted_v0 :
   exists CP CP' i,
-    (exists recv, additive_recv secp256k1_q 32 demo_sc2 demo_choices demo_VC CP = ROk recv) /\
+    (exists recv, additive_recv_v0 secp256k1_q 32 demo_sc2 demo_choices demo_VC CP = ROk recv) /\
     length CP' = length CP /\
     (forall j, j <> i -> nth j CP' ([], []) = nth j CP ([], [])) /\
     snd (nth i CP' ([], [])) = snd (nth i CP ([], [])) /\
-    additive_recv secp256k1_q 32 demo_sc2 demo_choices demo_VC CP' = RPanic.
+    additive_recv_v0 secp256k1_q 32 demo_sc2 demo_choices demo_VC CP' = RPanic.
 Proof.
-  exists demo_CP, demo_CP_short, 7%nat. split; [exact demo_honest_ok|].
+  exists demo_CP, demo_CP_short, 7%nat. split; [exact demo_honest_ok_v0|].
   split; [vm_compute; reflexivity|]. split.
   - intros j Hj.
     assert (L : (j < 40 \/ 40 <= j)%nat) by lia. destruct L as [L|L].
     + do 40 (destruct j as [|j]; [try (exfalso; apply Hj; reflexivity); vm_compute; reflexivity|]). lia.
     + rewrite !nth_overflow; [reflexivity | vm_compute; lia | vm_compute; lia].
-  - split; [vm_compute; reflexivity | exact additive_short_pad_panics].
+  - split; [vm_compute; reflexivity | exact additive_short_pad_panics_v0].
 Qed.
 
 (* ---- toy hash functions and concrete runs ---- *)
